@@ -184,7 +184,11 @@ func IterAll(m util.MerklePatriciaTrieI) (map[string][]byte, error) {
 			if _, had := out[p]; had {
 				dup = fmt.Errorf("iterate yielded path %q twice", p)
 			}
-			out[p] = append([]byte(nil), vn.GetValueBytes()...)
+			vb := vn.GetValueBytes()
+			out[p] = append([]byte(nil), vb...)
+			for i := range vb { // same for the bytes handed to an Iterate handler
+				vb[i] ^= 0x5a
+			}
 		}
 		return nil
 	}, util.NodeTypeValueNode)
@@ -201,6 +205,9 @@ func CheckMap(m util.MerklePatriciaTrieI, model map[string][]byte, absent []stri
 		d, err := m.GetNodeValueRaw(util.Path(k))
 		if err != nil || !bytes.Equal(d, v) {
 			return fmt.Sprintf("lookup %q = %q, %v; model has %q", k, d, err, v)
+		}
+		for i := range d { // the returned bytes belong to the caller: overwriting them must not touch the trie
+			d[i] ^= 0x5a
 		}
 	}
 	for _, k := range absent {
